@@ -15,6 +15,7 @@ Lemma src_dot u w : s_dot u w = dot u w.
 Proof.
   unfold s_dot, dot, dot_raw. destruct (length u =? length w) eqn:E; cbn [negb]; [|reflexivity].
   apply Nat.eqb_eq in E. unfold for_. rewrite Nat.sub_0_r.
+  try (rewrite <- E, Nat.min_id).      (* `for (a, b) in u.iter().zip(w.iter())` runs to min(len u, len w): equal lengths here *)
   rewrite (for_from_ext _ _ _ (fun i acc => let* x := (let* a := rd u i in let* b := rd w i in Ok (mul a b)) in Ok (add acc x))).
   2:{ intros i s _. destruct (rd u i); cbn; [|reflexivity]. destruct (rd w i); reflexivity. }
   rewrite for_from_fold, mapM_rd2 by lia. rewrite mapM_pure. cbn [bind]. now rewrite fold_left_map.
@@ -48,15 +49,6 @@ Proof.
   rewrite (for_from_fold (rd v) (fun acc x => add acc (abs x))), mapM_rd_all. reflexivity.
 Qed.
 
-Lemma src_vabs v : s_vabs v = Ok (vabs v).
-Proof.
-  unfold s_vabs, vabs, for_. rewrite Nat.sub_0_r.
-  pose proof (for_from_tab (fun i => let* x := rd v i in Ok (abs x)) (repeat zero (length v)) []) as H.
-  rewrite repeat_length in H. cbn [length app] in H.
-  etransitivity; [|etransitivity; [exact H|]].
-  - apply for_from_ext; intros i s _. destruct (rd v i); reflexivity.
-  - rewrite mapM_rd1, mapM_pure. reflexivity.
-Qed.
 
 Lemma map_const_seq {X Y} (l : list X) (y : Y) lo : map (fun _ => y) (seq lo (length l)) = map (fun _ => y) l.
 Proof. revert lo; induction l as [|a t IH]; intros lo; cbn; [reflexivity|]. now rewrite IH. Qed.
@@ -101,6 +93,21 @@ Proof.
   etransitivity; [|etransitivity; [exact (for_from_push (fun i => let* a := rd v i in G a) (length v) 0 [])|]].
   - apply for_from_ext; intros i s _. destruct (rd v i); reflexivity.
   - rewrite mapM_rd1. apply bind_ret.
+Qed.
+
+(* abs: the source either fills a vector of zeros in place (vec[i] = self[i].abs(): a tabulating loop) or pushes
+   self[i].abs() onto an empty vector (a push loop); both are map abs *)
+Lemma src_vabs v : s_vabs v = Ok (vabs v).
+Proof.
+  unfold s_vabs, vabs, for_. rewrite Nat.sub_0_r. cbv zeta.
+  first
+  [ pose proof (for_from_tab (fun i => let* x := rd v i in Ok (abs x)) (repeat zero (length v)) []) as H;
+    rewrite repeat_length in H; cbn [length app] in H;
+    (etransitivity; [|etransitivity; [exact H|]]);
+    [ apply for_from_ext; intros i s _; destruct (rd v i); reflexivity
+    | rewrite mapM_rd1, mapM_pure; reflexivity ]
+  | (etransitivity; [|etransitivity; [exact (push_loop1 v (fun a => Ok (abs a)))|apply mapM_pure]]);
+    apply for_from_ext; intros i s _; destruct (rd v i); reflexivity ].
 Qed.
 
 Lemma src_vscale v s : s_vscale v s = Ok (vscale v s).
